@@ -87,6 +87,11 @@ CHECKS.update({
         "note": M1NOTE + " Rational times scaled to integers by the lcm of denominators.",
         "technique": "TLC-selected valid plans; recorded STN constraints judged by Floyd-Warshall in TLA+ and the converted-back plan by the TLA+ temporal semantics",
     },
+    "C27": {
+        "text": "Phase 1: TLC explores UPSeqSem!Step on independence-biased generated problems and emits executable sequences of distinct ground instances; the real SequentialPlan.convert_to(PARTIAL_ORDER_PLAN) is recorded. Deorder.tla: TLC explores the DOWN-SET LATTICE of the recorded partial order (executed set + current state; covers all linearisations with 2^n states): every enabled node is Step-applicable, every maximal behaviour ends in the original final state with the goal holding; instances where one writes a ground fluent the other reads or writes (syntactic Reads/Writes after expansion) stay ordered; all_sequential_plans() equals the set of linear extensions. MCDeorder checks the order utilities themselves.",
+        "note": M1NOTE + " Plans of <= 5 distinct instances; trajectory constraints other than invariants and simulated effects are not generated.",
+        "technique": "TLC exploration of the down-set lattice of the recorded partial order with the TLA+ sequential semantics",
+    },
     "C28": {
         "text": "Durative problems inside TimedToSequential.supported_kind() are compiled by the real compiler; compiled plans (short sequences and simulator walks) are converted back by the real plan_back_conversion; TimedToSeqJudge.tla: SeqVerdict(compiled problem, plan) = VALID implies the conversion does not raise and UPTimeSem!TimeVerdict(original problem, converted plan) = VALID, with a dedicated clause for a duration outside its (possibly open, possibly fluent-dependent) interval.",
         "note": M1NOTE,
